@@ -150,6 +150,21 @@ Proof. exact combine_perm. Qed.
 Theorem split_request_success_iff_all_parts : forall rs, combine rs = RSuccess <-> forall r, In r rs -> r = RSuccess.
 Proof. exact combine_success. Qed.
 
+(* ---- the retry sender is stopped first, and stopping it releases every back-off -----------------------
+   BaseExporter.Shutdown closes stopCh before anything else (whenever retry is enabled — also for an exporter
+   without queue and batcher, which the LTS does not otherwise model: there the sender chain runs on the
+   caller's goroutine and this is all Shutdown does before stopping the wrapped exporter).  Once it is closed
+   every work waiting in its back-off can take the stop branch, which ends it with the shutdown error and
+   without a further export attempt. *)
+Theorem close_stop_stops_retry : forall c s s', step c s LCloseStop = Some s' -> rstop s' = c_retry c.
+Proof. exact close_stop_l. Qed.
+
+Theorem backoff_released_by_stop : forall c s k w,
+  nth_error (works s) k = Some w -> w_st w = SBackoff -> rstop s = true ->
+  exists s', step c s (LRetryStop k) = Some s' /\ begun s' = begun s /\
+             nth_error (works s') k = Some (set_st (SDone RShutdown) w).
+Proof. exact backoff_released_l. Qed.
+
 (* ---- the model that the correspondence run executes is this LTS ---------------------------------- *)
 Theorem scheduler_runs_are_runs : forall hc acts ls evss s,
   exec hc [] (init (h_cfg hc)) acts = Some (ls, evss, s) -> run (h_cfg hc) (init (h_cfg hc)) ls = Some s.
@@ -170,4 +185,6 @@ Print Assumptions queue_stop_error_only_sets_the_result.
 Print Assumptions split_request_kept_iff_some_part_interrupted.
 Print Assumptions split_request_verdict_order_independent.
 Print Assumptions split_request_success_iff_all_parts.
+Print Assumptions close_stop_stops_retry.
+Print Assumptions backoff_released_by_stop.
 Print Assumptions scheduler_runs_are_runs.
